@@ -253,7 +253,7 @@ func sboxCause(kinds []string) string {
 }
 
 func TestVerif_C05(t *testing.T) {
-	vfMain(t, "C05", vfSizes{Quick: 400, Thorough: 3000}, sboxRule+"after every handler return the sessions must carry exactly the advertisements of the services currently held; at every quiescent point routes, attributes, live sessions and PeersForService are compared with the expectation computed from the resources; non-trivial = distinct expected (peer -> routes) constellation with at least one route",
+	vfMain(t, "C05", vfSizes{Quick: 600, Thorough: 3000}, sboxRule+"after every handler return the sessions must carry exactly the advertisements of the services currently held; at every quiescent point routes, attributes, live sessions and PeersForService are compared with the expectation computed from the resources; non-trivial = distinct expected (peer -> routes) constellation with at least one route",
 		func(c *vfCase) { sboxHistory(c, sboxMon{c05: true}, 30, 3) })
 }
 
